@@ -12,7 +12,10 @@ using namespace vh;
 namespace {
 void measure(NifFile& nif, bool def, const std::string& caseJson, const char* variant, std::string& out) {
 	ContentIds ids, qids;
+	// answers that name things (not block numbers) must survive even the first, sorting and pruning, default save
+	long long namesBefore = batteryNames(nif, qids);
 	if (def) saveToString(nif, true, true); // the first default save sorts and prunes (block indices move): measure from there
+	long long namesAfterFirst = batteryNames(nif, qids);
 	for (auto s : nif.GetShapes()) s->UpdateBounds();
 	JObj ev;
 	ev.add("e", "resave").raw("case", caseJson).add("opt", def ? "default" : "raw").add("variant", variant);
@@ -37,6 +40,7 @@ void measure(NifFile& nif, bool def, const std::string& caseJson, const char* va
 	std::string b3 = saveToString(nif, def, def);
 	ev.raw("S3", fileAbstract(b3, &nif, ids));
 	ev.raw("q3", battery(nif, qids));
+	ev.add("namesBefore", namesBefore).add("namesAfterFirst", namesAfterFirst).add("namesEnd", batteryNames(nif, qids));
 	ev.add("eq01raw", b0 == b1).add("eq12raw", b1 == b2).add("eq23raw", b2 == b3);
 	out += ev.done() + "\n";
 }
@@ -107,6 +111,26 @@ int cmdResave(int argc, char** argv) {
 								}
 					if (!rotated) break;
 					measure(nif, def != 0, caseOf(k), "rotated-partition-triangles", out);
+				}
+				// the skin of the first skinned shape gets a skeleton root of its own (a node added last, so that a sorting save
+				// moves it)
+				for (int def = 0; def < 2; def++) {
+					NifFile nif;
+					if (loadFromString(nif, bytes) != 0) return;
+					bool bound = false;
+					for (auto sh : nif.GetShapes()) {
+						auto& hd = nif.GetHeader();
+						auto si = hd.GetBlock<NiSkinInstance>(sh->SkinInstanceRef());
+						auto bi = hd.GetBlock<BSSkinInstance>(sh->SkinInstanceRef());
+						if (!si && !bi) continue;
+						MatTransform t;
+						auto sr = nif.AddNode("SkeletonRootNode", t);
+						(si ? si->targetRef.index : bi->targetRef.index) = nif.GetBlockID(sr);
+						bound = true;
+						break;
+					}
+					if (!bound) break;
+					measure(nif, def != 0, caseOf(k), "skeleton-root-node", out);
 				}
 				// one block type relabelled so that the library holds its blocks as opaque ones
 				HeaderInfo h = parseHeader(bytes);
